@@ -210,10 +210,12 @@ def _from_str_witnesses():
 
 def c12(tier, seed):
     units = [("gen_errors", None, None), ("layout", None, r"^(safety|decreases.*)$"), ("bf_alloc", None, r"^(safety|decreases.*)$"), ("macro_type", None, r"^safety$"),
-             ("edges", None, r"^safety$"), ("derive_gate", None, r"^safety$"), ("derives", None, r"^safety$"), ("fn_abi", None, r"^safety$"), ("constrain", None, r"^safety$"), ("prim_types", None, r"^safety$"), ("packed", None, r"^(safety|decreases.*)$"), ("blocklist", None, r"^safety$"), ("has_float", None, r"^safety$"), ("has_tp_array", None, r"^safety$"), ("has_destructor", None, r"^safety$"), ("lattice_insert", None, r"^safety$")]
+             ("edges", None, r"^safety$"), ("derive_gate", None, r"^safety$"), ("derives", None, r"^safety$"), ("fn_abi", None, r"^safety$"), ("constrain", None, r"^safety$"), ("prim_types", None, r"^safety$"), ("packed", None, r"^(safety|decreases.*)$"), ("blocklist", None, r"^safety$"), ("has_float", None, r"^safety$"), ("has_tp_array", None, r"^safety$"), ("has_destructor", None, r"^safety$"), ("lattice_insert", None, r"^safety$"),
+             ("lattice_constrain", r"::constrain::", r"^safety$"), ("link_name", r"::names_will_be_identical_after_mangling::", r"^safety$"), ("eval_int", None, r"^safety$"), ("bf_unit_start", None, r"^safety$")]
     return _verus_prop("C12", tier, seed, units, {
         "trusted_base": LAYOUT_TRUST + ["alloc::fmt::format stubbed in the from_str witness harnesses (message text irrelevant)"],
-        "functions_under_contract": ["bindgen/lib.rs: the input-path checks of Bindings::generate (missing -> NotExist, directory -> FolderAsHeader, unreadable -> InsufficientPermissions; file system uninterpreted) and the per-diagnostic step of parse() (severity Error or Fatal -> ClangDiagnostic error) -- blocks extracted by rule R18, unit gen_errors"] + LAYOUT_FNS + ["bindgen/ir/comp.rs: bitfields_to_allocation_units (no-clang-offset mode)", "and the functions of units macro_type, edges, derive_gate, derives, fn_abi (see C05, C07-C09, C14)"],
+        "functions_under_contract": ["bindgen/lib.rs: the input-path checks of Bindings::generate (missing -> NotExist, directory -> FolderAsHeader, unreadable -> InsufficientPermissions; file system uninterpreted) and the per-diagnostic step of parse() (severity Error or Fatal -> ClangDiagnostic error) -- blocks extracted by rule R18, unit gen_errors"] + LAYOUT_FNS + ["bindgen/ir/comp.rs: bitfields_to_allocation_units (no-clang-offset mode)", "and the functions of units macro_type, edges, derive_gate, derives, fn_abi (see C05, C07-C09, C14)",
+                                     "bindgen/codegen/mod.rs: utils::names_will_be_identical_after_mangling (every slice index / range in bounds, for all name lengths); bindgen/ir/analysis/{has_vtable,sizedness}.rs: constrain (the two unreachable!() arms of SizednessAnalysis::constrain are unreachable given 'TypeKind::Opaque types are opaque' and 'no UnresolvedTypeRef after parsing'); clang::EvalResult::as_int; the bit-field unit-start closure (no underflow given offset_into_unit <= offset)"],
         "assumptions": [
             "error values: the two specific-error mechanisms of the property (input path, clang diagnostics) as postconditions over an uninterpreted file system / libclang",
             "panic-freedom (no arithmetic overflow/underflow, division by zero, unwrap on None, failed precondition of a callee) and loop termination of the functions under contract, under the preconditions inv() && small() && valid_layout(..)",
@@ -276,7 +278,7 @@ def c07(tier, seed):
         o1, c1 = units_incrate.run_spec(units_incrate.lattice_spec() + units_incrate.subscriptions_spec())
         return o1, c1
     return _verus_prop("C07", tier, seed, [("edges", r"consider_edge", None), ("has_float", None, None), ("has_tp_array", None, None),
-                                           ("has_destructor", None, None), ("lattice_insert", None, None), ("analyze", None, None)], {
+                                           ("has_destructor", None, None), ("lattice_insert", None, None), ("analyze", None, None), ("lattice_constrain", r"::constrain::", None), ("constrain", r"::CannotDerive::(constrain|insert)::", None)], {
         "trusted_base": INCRATE_TRUST + ["read-sets of each analysis' constrain (contracts/edges.py, hand-derived from the constrain bodies and the Trace impls)",
                                         "declared lattice orders taken from the enums' doc comments"],
         "functions_under_contract": ["bindgen/ir/derive.rs: CanDerive::join, BitOr, BitOrAssign", "bindgen/ir/analysis/has_vtable.rs: HasVtableResult::join(+ops), HasVtableAnalysis::consider_edge",
@@ -284,12 +286,13 @@ def c07(tier, seed):
                                      "bindgen/ir/analysis/{has_destructor,has_float,has_type_param_in_array}.rs: consider_edge",
                                      "bindgen/ir/analysis/derive.rs: consider_edge_default, DeriveTrait::consider_edge_comp/_typeref/_tmpl_inst",
                                      "bindgen/ir/analysis/{has_float,has_type_param_in_array,has_destructor}.rs: insert and MonotoneFramework::constrain (units has_float, has_tp_array, has_destructor: inflationary, Changed <=> the fact set changed, fix-point equation of the rule; 'any base/field/argument has the fact' iterator chains = uninterpreted functions of the fact set)",
+                                     "bindgen/ir/analysis/{has_vtable,sizedness}.rs: MonotoneFramework::constrain of HasVtableAnalysis and SizednessAnalysis (unit lattice_constrain: only the node moves, to the join of its old fact and the documented rule applied to the current facts of its neighbours; Changed <=> it moved; insert/forward used through their contracts; the unreachable!() arms proved unreachable under the stated IR invariants)",
                                      "bindgen/ir/analysis/mod.rs: analyze::<A> -- the generic worklist driver, for EVERY analysis A satisfying the MonotoneFramework obligations (unit analyze: at return every node of the initial worklist is stable, i.e. re-applying its rule changes nothing; `while let` desugared by its definition (R19), the each_depending_on callback = append of the dependents (R16); termination not proved)",
                                      "bindgen/ir/analysis/{has_vtable,sizedness,derive}.rs: insert (+forward) of the lattice-valued analyses (unit lattice_insert: the key moves only up, to the join; Changed <=> it moved; Entry API desugared by rule R17)"],
         "assumptions": ["necessary conditions of the least-fixed-point property: (i) joins are least upper bounds of the declared orders, (ii) every edge kind a rule reads along is in the analysis' subscription predicate, (iii) every table update is inflationary and reports Changed exactly when the table changed, (iv) the three set-valued rules compute the fact of a node from the current facts of its neighbours (fix-point equation)",
                         "(v) the driver: assuming of an analysis that constrain(n) leaves n stable, that Same changes nothing and that Changed can de-stabilise only nodes each_depending_on(n) reports (env/analyze_env.rs), analyze returns a state in which every node of the initial worklist is stable",
-                        "the constrain bodies of HasVtableAnalysis, SizednessAnalysis, CannotDerive::constrain (outer) and UsedTemplateParameters are NOT under contract; CannotDerive does not satisfy the driver's assumption for NON-allowlisted sub-items (it has no dependency edges for them and relies on the seed order of its initial_worklist instead: seed S24 missed)"],
-        "unverified": ["constrain of has_vtable / sizedness / template_params; the initial_worklist functions (iterator chains); generate_dependencies; Trace impls; completeness of the read-sets; termination; the declaration-order corollary"],
+                        "CannotDerive::constrain IS under contract (unit constrain: node_rule = per-type rule + large-alignment conservatism, member join uninterpreted); UsedTemplateParameters::constrain is NOT; CannotDerive does not satisfy the driver's assumption for NON-allowlisted sub-items (it has no dependency edges for them and relies on the seed order of its initial_worklist instead: seed S24 missed)"],
+        "unverified": ["constrain of template_params (UsedTemplateParameters); CannotDerive::constrain_join (which members are joined); the initial_worklist functions (iterator chains); generate_dependencies; Trace impls; completeness of the read-sets; termination; the declaration-order corollary"],
     }, extra_obs=extra)
 
 
@@ -301,13 +304,14 @@ def c08(tier, seed):
                                         "rule-table oracle written from the property statement (kani_incrate/derive_tables.rs)"],
         "functions_under_contract": ["bindgen/ir/context.rs: the eight impl<T> CanDerive{Debug,Default,Copy,Hash,PartialOrd,PartialEq,Eq,Ord} for T bodies",
                                      "bindgen/ir/analysis/derive.rs: CannotDerive::constrain_type (the whole per-type rule: blocklisted, excluded by name, opaque, simple kinds, pointers/fn pointers, arrays, vectors, compounds, type references, template instantiations) and DeriveTrait::{not_by_name, can_derive_*} (Verus unit constrain; member join = uninterpreted s_join)",
-                                     "bindgen/codegen/mod.rs: derives_of_item (packed-requires-Copy, annotation exclusions; DerivableTraits modelled as one bool per flag)",
+                                     "bindgen/ir/analysis/derive.rs: CannotDerive::constrain (node rule = per-type rule, made Manually for Default when the type is aligned beyond the 32-element limit; non-type items join their members) and CannotDerive::insert",
+                                     "bindgen/codegen/mod.rs: derives_of_item (packed-requires-Copy, annotation exclusions; DerivableTraits modelled as one bool per flag); the four needs_{debug,default,clone,partialeq}_impl decisions of CompInfo::codegen (statements, R18)",
                                      "bindgen/ir/analysis/derive.rs: DeriveTrait::can_derive_{simple,pointer,vector,union,compound_with_destructor,compound_with_vtable,compound_forward_decl,incomplete_array}; can_derive_fnptr (bounded)",
                                      "bindgen/ir/function.rs: FunctionSig::function_pointers_can_derive (bounded)"],
         "assumptions": ["gating: result == option enabled && analysis lookup (&& no float for Eq/Ord), both directions ('never when', 'never withheld')",
                         "rule tables complete over all 5 traits x every TypeKind constructible without libclang (17 kinds); UnresolvedTypeRef, Comp, Function, TemplateInstantiation, ObjCInterface kinds are not constructible and are skipped"],
         "bounds": "the Kani twins of the fn-pointer rule enumerate argument counts 0, 12, 13 only (bounded, not counted); the rule itself is proved for every argument count by Verus (fn_abi::FunctionSig::function_pointers_can_derive, constrain::DeriveTrait::can_derive_fnptr)",
-        "unverified": ["CannotDerive::constrain_join (closure over Trace: which members are joined), CannotDerive::constrain (large-alignment override, insert), the IR reads themselves; hand-written impl bodies (impl_debug.rs, impl_partialeq.rs, Default via write_bytes)"],
+        "unverified": ["CannotDerive::constrain_join (closure over Trace: which members are joined), the IR reads themselves; hand-written impl bodies (impl_debug.rs, impl_partialeq.rs, Default via write_bytes)"],
     }, extra_obs=extra)
 
 
